@@ -67,6 +67,9 @@ class Prop(common.PropertyCheck):
         nsamples = self.budget(5, 40)
         for si in range(nsamples):
             spec = samples.spec_rich(rng, N=rng.randrange(0, 14), datatype=rng.choice(['I', 'I', 'F']))
+            if si % 2 == 1 and len(spec['names']) >= 3:
+                # two parameters with the same $PnN (and different settings): attributes are per position, not per name
+                spec['names'][2] = spec['names'][1]
             seqs = [[]]
             for L in (1, 2, 3):
                 allseq = [tuple(rng.choice(OPS) for _ in range(L)) for _x in range(self.budget(10, 60))]
